@@ -138,7 +138,7 @@ func ZZ_C16_Converters() {
 		}
 	}
 	scenario := zz.Choice("scenario", zz.Param("scenarios", 6))
-	zzThreshold = zz.Range("threshold", 1, 6)
+	zzThreshold = zz.Range("threshold", 1, zz.Param("thresholdmax", 6))
 	if scenario != 3 {
 		// (a tag that looks at payload is re-evaluated after every converter job, and
 		// the end of that tagging job starts pending converter work as well: scenario
